@@ -34,6 +34,15 @@ struct Sec {      // a heap copy of a secret, tainted
 };
 static void defined(void *p, size_t n) { (void)VALGRIND_MAKE_MEM_DEFINED(p, n); }
 
+// non-volatile storage whose content (a saved seed) is secret
+static const uint8_t *g_ct_store = 0; static size_t g_ct_store_n = 0;
+static int ct_read(const ascon_storage_t *, size_t off, unsigned char *data, size_t size) {
+    for (size_t i = 0; i < size; ++i) data[i] = off + i < g_ct_store_n ? g_ct_store[off + i] : 0;
+    (void)VALGRIND_MAKE_MEM_UNDEFINED(data, size);
+    return (int)size;
+}
+static int ct_write(const ascon_storage_t *, size_t, const unsigned char *, size_t size, int) { return (int)size; }
+
 static void ct_call(const Args &a) {
     std::string fn = a.str("fn");
     bytes_t k = a.hex("k"), n = a.hex("n"), ad = a.hex("ad"), m = a.hex("m"), x = a.hex("x");
@@ -86,6 +95,15 @@ static void ct_call(const Args &a) {
         std::vector<std::pair<int, bytes_t> > src; src.push_back(std::make_pair(1, k)); src.push_back(std::make_pair(1, k)); tape_set_src(src);
         ascon_random_state_t st; ascon_random_init(&st); ascon_random_feed(&st, ms.p, ms.n); ascon_random_fetch(&st, out.p, outlen);
         ascon_random_reseed(&st); ascon_random_fetch(&st, out.p, outlen); ascon_random_free(&st); olen = outlen;
+    }
+    else if (fn == "prng_seed") {  // k = system seed, m = the seed saved in non-volatile storage (both secret)
+        std::vector<std::pair<int, bytes_t> > src; src.push_back(std::make_pair(1, k)); src.push_back(std::make_pair(1, k)); tape_set_src(src);
+        ascon_storage_t stg; memset(&stg, 0, sizeof stg); stg.page_size = 1; stg.size = 64; stg.read = ct_read; stg.write = ct_write;
+        g_ct_store = ms.p; g_ct_store_n = ms.n;
+        ascon_random_state_t st; ascon_random_init(&st);
+        int r1 = ascon_random_load_seed(&st, &stg); ascon_random_fetch(&st, out.p, outlen);
+        int r2 = ascon_random_save_seed(&st, &stg); ascon_random_free(&st); olen = outlen;
+        ret = (r1 == 0 && r2 == 0) ? 0 : -1;
     }
     else fatal("ct.call fn %s", fn.c_str());
     g_rec = false; g_taint_tape = false; g_taint_src = false;
